@@ -91,6 +91,16 @@ def intern_atom(key):
         a = ATOM_TABLE[key] = Atom(key)
     return a
 
+def _sqrt_const(atom):
+    """c if atom is sqrt(c) with c a rational constant, else None."""
+    k = atom.key[1] if len(atom.key) == 2 else None
+    if isinstance(k, tuple) and len(k) == 2 and k[0] == 'p':
+        if not k[1]:
+            return Fraction(0)
+        if len(k[1]) == 1 and k[1][0][0] == ():
+            return k[1][0][1]
+    return None
+
 def _is_bool_name(n):
     return isinstance(n, Atom) and n.kind == 'bool'
 
@@ -133,7 +143,20 @@ class Poly:
                         d[n] = d.get(n, 0) + e
                     # idempotent boolean atoms
                     k = tuple(sorted(((n, 1 if _is_bool_name(n) else e) for n, e in d.items()), key=lambda x: _ord(x[0])))
-                t[k] = t.get(k, 0) + v1 * v2
+                c12 = v1 * v2
+                if any(e >= 2 and isinstance(n, Atom) and n.kind == 'sqrt' for n, e in k):
+                    # axiom sqrt(c)^2 = c for constant c
+                    k2 = []
+                    for n, e in k:
+                        cst = _sqrt_const(n) if isinstance(n, Atom) and n.kind == 'sqrt' and e >= 2 else None
+                        if cst is not None:
+                            c12 = c12 * cst ** (e // 2)
+                            if e % 2:
+                                k2.append((n, 1))
+                        else:
+                            k2.append((n, e))
+                    k = tuple(k2)
+                t[k] = t.get(k, 0) + c12
         return Poly(t)
     def __eq__(self, o):
         return self.t == o.t
@@ -342,6 +365,8 @@ class Rat:
                           self.cv / o.cv if self.cv is not None and o.cv not in (None, 0) else None)
         if OPAQUE_DIV[0] and not o.is_const():
             return self * uf('inv', o)
+        if o.n == Poly():
+            raise OutOfFragment('division by an identically zero value')
         return Rat(self.n * o.d, self.d * o.n)
     def __rtruediv__(self, o):
         return Rat.lift(o) / self
@@ -1430,6 +1455,14 @@ class Interp:
                 it = iter(out)
                 return self.tree_map(('prim', 'fill', lambda _x: next(it)), tree)
             return flat, ('prim', 'unflatten', unflatten)
+        if name == 'jax.random.uniform':
+            shape = kw.get('shape', args[1] if len(args) > 1 else ())
+            a_ = np.empty(tuple(shape), dtype=object)
+            for idx in np.ndindex(*a_.shape):
+                a_[idx] = uf('uniform', asarr(args[0]), idx)
+            return a_ if a_.shape else a_[()]
+        if name in ('jax.random.PRNGKey', 'jax.random.key'):
+            return np.array([uf('prngkey', args[0], 0), uf('prngkey', args[0], 1)], dtype=object)
         if name == 'jax.random.randint':
             shape = kw.get('shape', args[1] if len(args) > 1 else ())
             lo = kw.get('minval', args[2] if len(args) > 2 else 0); hi = kw.get('maxval', args[3] if len(args) > 3 else None)
